@@ -421,6 +421,10 @@ package rewriter
 
 //@ closure yieldRewriter.rewriteRanges#0 as @Apply.2 (c) (ok)
 //@   reveal wf-ast
+//@   cover[lowers-string] isa(cursorNode(c), RangeStmt) && IsStringT(typeOfExpr(as(cursorNode(c), RangeStmt).X)) && !(W == old(W))
+//@   cover[lowers-integer] isa(cursorNode(c), RangeStmt) && IsIntegerT(typeOfExpr(as(cursorNode(c), RangeStmt).X)) && !(W == old(W))
+//@   cover[lowers-array] isa(cursorNode(c), RangeStmt) && IsKindT(typeOfExpr(as(cursorNode(c), RangeStmt).X), 1) && !(W == old(W))
+//@   cover[lowers-map] isa(cursorNode(c), RangeStmt) && IsKindT(typeOfExpr(as(cursorNode(c), RangeStmt).X), 3) && !(W == old(W))
 //@   captured-inv r != nil
 //@   requires c != nil && YRCtx(r)
 //@   requires isa(cursorNode(c), RangeStmt) ==> !isnil(cursorNode(c)) && as(cursorNode(c), RangeStmt).Body != nil
@@ -654,6 +658,9 @@ package rewriter
 //@   ensures[plain-keeps-block] AllPlain(children) && res != nil ==> res == children
 //@   ensures[supported] Sup(stmt)
 //@   ensures[nil-means-last-or-branch] res == nil && !isLast ==> isa(stmt, BranchStmt)
+//@   cover[range-arm] isa(stmt, RangeStmt) && res == children
+//@   cover[yield-arm] IsCallStmtOf(stmt, r.rewriter.yieldFunc) && res != nil && res != children
+//@   cover[block-lowered] isa(stmt, BlockStmt) && BLen(children) > 0 && BKind(children, BLen(children) - 1) == kindYield
 //@   requires YRCtx(r) && ProperStmt(stmt) && children != nil && Ready(children) && BodyKind(BOwner(children))
 //@   requires isa(stmt, BlockStmt) ==> StmtList(as(stmt, BlockStmt).List)
 //@   requires[yield-stmt] (isa(stmt, ExprStmt) || isa(stmt, AssignStmt) || isa(stmt, IncDecStmt) || isa(stmt, SendStmt)) && HasYield(stmt) ==> IsCallStmtOf(stmt, r.rewriter.yieldFunc)
@@ -686,6 +693,8 @@ package rewriter
 //@   ghost isa(stmt.Else, BlockStmt) && SupList(as(stmt.Else, BlockStmt).List) ==> Sup(stmt.Else)
 //@   ghost SupList(stmt.Body.List) && SimpleOrAbsent(stmt.Init) && (isnil(stmt.Else) || Sup(stmt.Else)) ==> Sup(iface(stmt, IfStmt))
 //@   ensures[supported] Sup(iface(stmt, IfStmt))
+//@   cover[native] BKind(children, BLen(children) - 1) == kindTrival
+//@   cover[lowered] BKind(children, BLen(children) - 1) == kindIf
 //@   ghost isa(stmt.Else, BlockStmt) && NYList(as(stmt.Else, BlockStmt).List) ==> NY(stmt.Else)
 //@   ghost !HasYield(stmt.Init) && NYList(stmt.Body.List) && (isnil(stmt.Else) || NY(stmt.Else)) ==> NY(iface(stmt, IfStmt))
 //@   ensures[no-yield-dropped] BKind(children, BLen(children) - 1) == kindTrival ==> NY(iface(stmt, IfStmt))
@@ -736,6 +745,9 @@ package rewriter
 //@   reveal wf-ast
 //@   ghost SupList(stmt.Body.List) && SimpleOrAbsent(stmt.Init) && SimpleOrAbsent(stmt.Post) ==> Sup(iface(stmt, ForStmt))
 //@   ensures[supported] Sup(iface(stmt, ForStmt))
+//@   cover[combine-branch] !trivalPost && BLen(body) > 0 && BKind(body, BLen(body) - 1) == kindCombine
+//@   cover[append-branch] !trivalPost && BLen(body) > 0 && BKind(body, BLen(body) - 1) == kindYield
+//@   cover[native] res == children && BLen(children) > 0 && BKind(children, BLen(children) - 1) == kindTrival
 //@   ghost !HasYield(stmt.Init) && !HasYield(stmt.Post) && NYList(stmt.Body.List) ==> NY(iface(stmt, ForStmt))
 //@   ensures[no-yield-dropped] AllPlain(children) ==> NY(iface(stmt, ForStmt))
 //@   ensures[plain-keeps-block] AllPlain(children) ==> res == children
@@ -973,6 +985,9 @@ package rewriter
 
 //@ closure yieldRewriter.rewriteReturnAndForSwitchInitStmtInYieldFun#2 as @Apply.2 (c) (ok)
 //@   reveal wf-ast, pre-pass0      -- this *is* pass 0: initialisers may still be short variable declarations
+//@   cover[hoists-for] isa(cursorNode(c), ForStmt) && !(W == old(W))
+//@   cover[hoists-switch] isa(cursorNode(c), SwitchStmt) && !(W == old(W))
+//@   cover[lowers-return] isa(cursorNode(c), ReturnStmt) && !RetIsNil(as(cursorNode(c), ReturnStmt)) && !(W == old(W))
 //@   captured-inv r != nil && yieldFunStack != nil
 //@   requires c != nil && YRCtx(r) && SLen(yieldFunStack) > 0
 //@   requires isa(cursorNode(c), FuncDecl) || isa(cursorNode(c), FuncLit) ==> SLen(yieldFunStack) > 1
